@@ -14,6 +14,7 @@ class LawfulTransc (α : Type) [Field α] [LinearOrder α] [IsStrictOrderedRing 
   pow_natCast : ∀ (x : α) (n : ℕ), 0 < x → Transc.pow x (n : α) = x ^ n
   abs_eq : ∀ x : α, Transc.abs x = |x|
   exp_pos : ∀ x : α, 0 < Transc.exp x
+  pow_neg_one : ∀ x : α, Transc.pow x (-1) = x⁻¹
   one_le_exp : ∀ x : α, 0 ≤ x → 1 ≤ Transc.exp x
 
 noncomputable instance : Transc ℝ where
@@ -28,6 +29,7 @@ instance : LawfulTransc ℝ where
   pow_natCast x n _ := Real.rpow_natCast x n
   abs_eq _ := rfl
   exp_pos x := Real.exp_pos x
+  pow_neg_one x := Real.rpow_neg_one x
   one_le_exp x hx := Real.one_le_exp hx
 
 section
